@@ -31,7 +31,12 @@ func (m *Mutex) obj() vsched.ObjID {
 // Lock mirrors sync.Mutex.Lock.
 func (m *Mutex) Lock() {
 	if vsched.Active() {
-		vsched.StepWhen(vsched.Op1("Mutex.Lock", m.obj(), vsched.KLock), func() bool { return !m.locked })
+		id := m.obj()
+		label := "Mutex.Lock"
+		if m.locked && m.owner == vsched.CurThread() {
+			label = "Mutex.Lock(held-by-self)@" + vsched.CallerFunc()
+		}
+		vsched.StepWhen(vsched.Op1(label, id, vsched.KLock), func() bool { return !m.locked })
 		m.locked = true
 		m.owner = vsched.CurThread()
 		return
@@ -85,6 +90,7 @@ type RWMutex struct {
 	readers   int
 	announced bool // a writer is pending or holding
 	writing   bool
+	wowner    int
 }
 
 func (m *RWMutex) obj() vsched.ObjID {
@@ -98,7 +104,12 @@ func (m *RWMutex) obj() vsched.ObjID {
 // RLock mirrors sync.RWMutex.RLock.
 func (m *RWMutex) RLock() {
 	if vsched.Active() {
-		vsched.StepWhen(vsched.Op1("RWMutex.RLock", m.obj(), vsched.KRLock), func() bool { return !m.announced })
+		id := m.obj()
+		label := "RWMutex.RLock"
+		if m.writing && m.wowner == vsched.CurThread() {
+			label = "RWMutex.RLock(write-held-by-self)@" + vsched.CallerFunc()
+		}
+		vsched.StepWhen(vsched.Op1(label, id, vsched.KRLock), func() bool { return !m.announced })
 		m.readers++
 		return
 	}
@@ -132,10 +143,15 @@ func (m *RWMutex) RUnlock() {
 func (m *RWMutex) Lock() {
 	if vsched.Active() {
 		id := m.obj()
-		vsched.StepWhen(vsched.Op1("RWMutex.Lock(announce)", id, vsched.KWAnnounce), func() bool { return !m.announced })
+		label := "RWMutex.Lock(announce)"
+		if m.writing && m.wowner == vsched.CurThread() {
+			label = "RWMutex.Lock(held-by-self)@" + vsched.CallerFunc()
+		}
+		vsched.StepWhen(vsched.Op1(label, id, vsched.KWAnnounce), func() bool { return !m.announced })
 		m.announced = true
 		vsched.StepWhen(vsched.Op1("RWMutex.Lock(acquire)", id, vsched.KWAcquire), func() bool { return m.readers == 0 })
 		m.writing = true
+		m.wowner = vsched.CurThread()
 		return
 	}
 	if vsched.Unwinding() {
